@@ -326,6 +326,79 @@ fn run(line: &str) -> String {
             let f = f.vh_finalize();
             format!("{:e} {} {}", f.area(), fv(f.centroid()), fv(f.normal()))
         }
+        "polytope_check" => {
+            // polytope_check <kind>: cells with face information of an fcc lattice (exact ties, 4-valent corners), a cubic lattice and a
+            // generic set: every vertex lies in exactly three faces, every face is a polygon (>= 3 vertices, no repeated index),
+            // V - E + F = 2, face_vertex_count agrees with face_vertices
+            let kind = a.u();
+            let mut gens = vec![];
+            match kind {
+                0 => {
+                    let basis = [DVec3::new(0.25, 0.25, 0.25), DVec3::new(0.75, 0.75, 0.25), DVec3::new(0.75, 0.25, 0.75), DVec3::new(0.25, 0.75, 0.75)];
+                    for i in 0..2 {
+                        for j in 0..2 {
+                            for k in 0..2 {
+                                for b in basis {
+                                    gens.push((DVec3::new(i as f64, j as f64, k as f64) + b) * 0.5);
+                                }
+                            }
+                        }
+                    }
+                }
+                1 => {
+                    for i in 0..3 {
+                        for j in 0..3 {
+                            for k in 0..3 {
+                                gens.push(DVec3::new(0.125 + 0.25 * i as f64, 0.125 + 0.25 * j as f64, 0.125 + 0.25 * k as f64));
+                            }
+                        }
+                    }
+                }
+                _ => {
+                    gens = vec![DVec3::new(0.2, 0.3, 0.4), DVec3::new(0.7, 0.6, 0.5), DVec3::new(0.5, 0.8, 0.2), DVec3::new(0.8, 0.2, 0.7), DVec3::new(0.3, 0.7, 0.8)];
+                }
+            }
+            let vi = VoronoiIntegrator::build(&gens, None, DVec3::ZERO, DVec3::ONE, Dimensionality::ThreeD, false).with_faces();
+            let mut bad: Vec<String> = vec![];
+            for cell in vi.cells_iter() {
+                let nv = cell.vertices.len();
+                let nf = cell.face_count();
+                let mut inc = vec![0usize; nv];
+                let mut half = 0usize;
+                for f in 0..nf {
+                    let poly = cell.face_vertices(f);
+                    if poly.len() != cell.face_vertex_count(f) {
+                        bad.push(format!("cell {} face {}: face_vertex_count disagrees with face_vertices", cell.idx, f));
+                    }
+                    if poly.len() < 3 {
+                        bad.push(format!("cell {} face {}: {} vertices", cell.idx, f, poly.len()));
+                    }
+                    half += poly.len();
+                    for (w, &v) in poly.iter().enumerate() {
+                        inc[v] += 1;
+                        if poly[..w].contains(&v) {
+                            bad.push(format!("cell {} face {}: vertex {} repeated", cell.idx, f, v));
+                        }
+                    }
+                }
+                for (v, &c) in inc.iter().enumerate() {
+                    if c != 3 {
+                        bad.push(format!("cell {}: vertex {} lies in {} faces", cell.idx, v, c));
+                    }
+                }
+                if half % 2 != 0 || (nv as i64) - (half as i64) / 2 + (nf as i64) != 2 {
+                    bad.push(format!("cell {}: V - E + F = {} - {}/2 + {} != 2", cell.idx, nv, half, nf));
+                }
+                if bad.len() > 3 {
+                    break;
+                }
+            }
+            if bad.is_empty() {
+                "valid".to_string()
+            } else {
+                bad[..bad.len().min(3)].join(" ; ")
+            }
+        }
         "withdata_alignment" => {
             // withdata_alignment <ndata> <n> bits..: which cells are paired with one of the first <ndata> data entries by the three
             // *_with_data methods (Data = (): the only data type a downstream crate can use, see known finding); prints the `left`
